@@ -90,6 +90,10 @@ func suiteC10(r *Run) {
 				case 3:
 					outMD = metadata.Pairs("k", fmt.Sprint("out", iter, j), "x-bin", "\x00\xff")
 					ctx = metadata.NewOutgoingContext(ctx, outMD)
+					if rng.Chance(50) {
+						// further pairs appended the other way the API offers (and a mixed-case key)
+						ctx = metadata.AppendToOutgoingContext(ctx, "k", "appended", "Extra-Key", "e1")
+					}
 					chainDesc = append(chainDesc, "out")
 				case 4:
 					var c context.CancelFunc
@@ -233,6 +237,11 @@ func suiteC10(r *Run) {
 			}
 		}
 		// metadata independence: mutate on each side
+		if co, ok := metadata.FromOutgoingContext(callerCtx); ok && rep.hasIn && !nestedIncoming {
+			if same, why := sameMD(co, rep.incoming); !same {
+				r.Violate("inproc-ctx/incoming-differs-from-outgoing", "the handler sees the caller's outgoing metadata as its incoming metadata", sprintf("caller's outgoing metadata %v, handler's incoming metadata %v (%s)", co, rep.incoming, why), c, mdArg(rep.incoming))
+			}
+		}
 		if outMD != nil && rep.hasIn {
 			snapshot := rep.incoming.Copy()
 			outMD.Set("k", "mutated-by-caller")
@@ -264,4 +273,23 @@ func suiteC10(r *Run) {
 			r.Sample(map[string]interface{}{"case": c, "handler_sees_user_values": vis, "incoming": fmt.Sprint(rep.incoming)})
 		}
 	}
+}
+
+
+func sameMD(a, b metadata.MD) (bool, string) {
+	if len(a) != len(b) {
+		return false, "different key sets"
+	}
+	for k, va := range a {
+		vb := b[k]
+		if len(va) != len(vb) {
+			return false, "key " + k
+		}
+		for i := range va {
+			if va[i] != vb[i] {
+				return false, "key " + k
+			}
+		}
+	}
+	return true, ""
 }
